@@ -642,7 +642,7 @@ pub fn property(_tier: Tier) -> Property {
         parts: vec![Box::new(RandomPart {
             name: "totality",
             rule: "proptest: reply of 0-9 frames (list form when != 1), 0-60 fields per frame drawn from every field name any decoder reads, the 31 tag names in several letter cases, random valid names and (1 case in 10) names outside today's key alphabet; values from dictionaries of numeric/float edges (2^32, 2^53, 2^64 +-1, 1e19, 1e309, NaN, inf, +5 ...), range, key=value and timestamp edges, random text; optional binary. Every frame goes through 34 decoders (every predefined command with a non-unit response, List<0|1|2> with expected and unexpected tags and with tags derived from the reply's own field names in own/lower/upper/flipped case, parsed and as hand-built catch-all) and all accessors/iterators of the results; the frame vector goes through tuples of EVERY arity 1-8 and Vecs of length {0,1,n-1,n,n+1,8}. Oracle: catch_unwind. non-trivial = some decoder returned Ok or an invalid-value error; 'executions' counts decoder runs; the check script runs this with and without the chrono feature",
-            cases: (40_000, 3_000_000),
+            cases: (40_000, 1_200_000),
             strategy: Box::new(|t| crate::streamlab::on_used_connection(strategy(t))),
             check: Box::new(|u: &crate::streamlab::OnUsedConnection<Case>| {
                 let mut r = crate::streamlab::with_history(&u.history, || check(&u.case));
